@@ -371,6 +371,25 @@ async fn lx_part(rep: &mut Report, thorough: bool) -> Result<(), String> {
             }
         }
     }
+    // CONNECT that cannot succeed (refusing port, unresolvable name) x {no early bytes, early bytes in the same segment,
+    // early bytes in a later segment}: never a 200, and the early bytes go nowhere
+    {
+        let (port, _g) = refusing_port("127.0.0.1");
+        for (tname, authority) in [("a refusing port", format!("127.0.0.1:{port}")), ("an unresolvable name", "nonexistent.invalid:80".to_string())] {
+            for (ename, early, one_segment) in [("no early bytes", 0usize, true), ("5 early bytes in the same segment", 5, true), ("700 early bytes in the same segment", 700, true), ("700 early bytes in a later segment", 700, false)] {
+                let name = format!("CONNECT to {tname}, {ename}");
+                rep.case(Some(&name));
+                let mut req = format!("CONNECT {authority} HTTP/1.1\r\nHost: {authority}\r\n\r\n").into_bytes();
+                let hlen = req.len();
+                req.extend(std::iter::repeat(b'E').take(early));
+                let cuts = if one_segment || early == 0 { vec![] } else { vec![hlen] };
+                let (resp, _) = http_exchange(proxy, &req, &cuts, 35_000).await;
+                if resp.starts_with(b"HTTP/1.1 200") || resp.windows(12).any(|w| w == b"HTTP/1.1 200") {
+                    rep.violation("C17:connect-200-without-tunnel", &format!("{name}: {:?}", String::from_utf8_lossy(&resp[..resp.len().min(80)])), json!({"engine": "LX", "case": name}));
+                }
+            }
+        }
+    }
     // CONNECT to a refusing port: no 200
     {
         let (port, _g) = refusing_port("127.0.0.1");
